@@ -136,7 +136,7 @@ def _arm(limit):
     signal.signal(signal.SIGALRM, _on_alarm)
     signal.signal(signal.SIGPROF, _on_alarm)
     signal.setitimer(signal.ITIMER_PROF, limit)
-    signal.alarm(limit * WALL_FACTOR)
+    signal.alarm(int(limit * WALL_FACTOR) + 1)
 
 
 def _disarm():
@@ -608,6 +608,7 @@ class Sweep:
         self.budget = BUDGET_S[run.tier if run.tier in BUDGET_S else "thorough"]
         self.definite = 0         # outcomes seen so far that the property forbids whatever a re-run says
         self.hanging = []         # cases that did not end in time (no huge int among the arguments), not yet re-run
+        self.hanging_huge = []    # the same with a huge int among the arguments (most of them will be excused)
         self.cut = False          # the time budget ran out on a tree that shows violations
         self.skipped = 0
         self.lines = set()        # lines of nodes.py the cases executed (see _watch_lines)
@@ -660,7 +661,7 @@ class Sweep:
                 if sus == 2:
                     self.definite += 1
                 elif sus == 1:
-                    self.hanging.append(parts[c][j])
+                    (self.hanging_huge if huge_at(parts[c][j][2]) else self.hanging).append(parts[c][j])
             if time.time() - self.t0 > self.budget and c + 1 < k and (self.definite or self.hangs_alone()):
                 self.cut = True
                 self.pool.terminate()
@@ -717,11 +718,28 @@ class Sweep:
 
     def hangs_alone(self):
         """over budget: do the cases that did not end really hang?  (a handful would not have cost
-        the time; three of them are re-run alone, the others forgotten if these end)"""
-        if len(self.hanging) < 8:
-            return False
-        probe, self.hanging = self.hanging[:3], []
-        return any(out in ("timeout", "host:MemoryError") for out, _ in self._alone(probe))
+        the time; three of them are re-run alone, the others forgotten if these end).  Cases holding a huge
+        int count only when their stand-in runs do not excuse them: at least three such cases of different
+        sites that do not end alone either (a correct tree has the odd case that is excused by a witness)."""
+        if len(self.hanging) >= 8:
+            probe, self.hanging = self.hanging[:3], []
+            if any(out in SLOW for out, _ in self._alone(probe)):
+                return True
+        if len(self.hanging_huge) >= 24:
+            by_site = {}
+            for j in self.hanging_huge:
+                by_site.setdefault(group_key(j), j)
+            probe, self.hanging_huge = list(by_site.values())[:6], []
+            runs = self._alone([scaled_job(j, lv) for j in probe for lv in LEVELS], _isolated_sized)
+            left = []
+            for n, j in enumerate(probe):
+                mine = [{"m": lv, "out": o, "size": sz}
+                        for lv, (o, _d, sz) in zip(LEVELS, runs[n * len(LEVELS):(n + 1) * len(LEVELS)])]
+                if not grows(mine):
+                    left.append(j)
+            if len(left) >= 3 and sum(out in SLOW for out, _ in self._alone(left)) >= 3:
+                return True
+        return False
 
     def caught(self, jobs):
         if self.cut:
@@ -741,12 +759,11 @@ SKIPPED = {"out": "skipped", "detail": "", "caught": "", "scaled": [], "witness"
 
 
 def suspicious(job, out):
-    """2 = an outcome the property forbids, 1 = no outcome in time (unless the case holds a huge
-    int: work proportional to a magnitude is settled by the scaled re-run), 0 = allowed"""
+    """2 = an outcome the property forbids, 1 = no outcome in time (to be looked at again), 0 = allowed"""
     if out in ("value", "error:ok", "host:MemoryError"):
         return 0
     if out == "timeout":
-        return 0 if any(t in HUGE_TAGS for t in job[2]) else 1
+        return 1
     return 2
 
 
